@@ -55,7 +55,17 @@ def kernel_contract(qual, rec, make):
     name = qual.split("::")[-1]
 
     def apply(ex, args, kwargs, fr):
-        krec(ex, name).setdefault("calls", []).append((list(args), dict(kwargs)))
+        # positional arguments are bound to the callee's parameter names, so that the obligations do not depend on the call style
+        bound = dict(kwargs)
+        try:
+            params = [a.arg for a in ex.world.function(qual).node.args.args]
+            for i, a in enumerate(args):
+                if i < len(params):
+                    bound.setdefault(params[i], a)
+            args = args[len(params):]
+        except Exception:
+            pass
+        krec(ex, name).setdefault("calls", []).append((list(args), bound))
         return make(ex, args, kwargs)
     return Contract(qual, apply, f"{qual.split('::')[-1]}: kernel under its own contract (C15)")
 
@@ -129,6 +139,19 @@ def kw(call, name, pos=None):
     return v.val if isinstance(v, VMaybe) else v
 
 
+def same_array(p, got, want, g=None):
+    """z3 goal: `got` is the array `want` or a copy of it (same shape, same element at the generic index)."""
+    if not (p.ex.is_arr(got) and p.ex.is_arr(want)):
+        return z3.BoolVal(False)
+    if got.addr == want.addr:
+        return z3.BoolVal(True)
+    a, b = p.st.cell(got), p.st.cell(want)
+    if len(a.shape) != len(b.shape):
+        return z3.BoolVal(False)
+    g = g or (G if len(a.shape) == 2 else (z3.Int("g_trap"), G[0], G[1]))
+    return z3.And(*[z_int(x) == z_int(y) for x, y in zip(a.shape, b.shape)], to_real(a.elem(g)) == to_real(b.elem(g)))
+
+
 def is_array_of(p, v, items):
     """v is np.array(<list of exactly these symbolic values, in order>)"""
     if not p.ex.is_arr(v):
@@ -188,9 +211,9 @@ def ipc_model(u: Unit):
             ok = len(calls) == 1
             c = calls[0] if ok else ([], {})
             got_in = kw(c, "input", 0)
-            same_in = ok and p.ex.is_arr(got_in) and (got_in.addr == p.ex.pix_in.addr)
+            same_in = same_array(p, got_in, p.ex.pix_in) if ok else z3.BoolVal(False)
             u.oblige(p, "model.ipc.kernel_gets_the_pixel_array_and_own_couplings",
-                     z3.And(zb(bool(same_in)), *[to_real(kw(c, n, i + 1)) == z3.Real(s) for i, (n, s) in enumerate((("coupling", "coupling"), ("diagonal_coupling", "diagonal"), ("anisotropic_coupling", "anisotropic")))
+                     z3.And(same_in, *[to_real(kw(c, n, i + 1)) == z3.Real(s) for i, (n, s) in enumerate((("coupling", "coupling"), ("diagonal_coupling", "diagonal"), ("anisotropic_coupling", "anisotropic")))
                                                   if kw(c, n, i + 1) is not None]) if ok and all(kw(c, n) is not None or len(c[0]) > i + 1 for i, n in enumerate(("coupling", "diagonal_coupling", "anisotropic_coupling"))) else z3.BoolVal(False),
                      {}, IPC_REPLAY)
             out = D.frame_elem(p.st, now)
@@ -288,8 +311,8 @@ def persistence_model(name, kernel, list2, has_caps):
                     c = calls[0] if ok else ([], {})
                     pix, trapped = kw(c, "pixel_array", 0), kw(c, "all_trapped_charge", 1)
                     want_trapped = p.ex.trapped_in if existing else rec.get("fresh_trapped")
-                    state_ok = ok and p.ex.is_arr(pix) and pix.addr == p.ex.pix_in.addr and p.ex.is_arr(trapped) and want_trapped is not None and trapped.addr == want_trapped.addr
-                    u.oblige(p, f"model.{name}.kernel_gets_detector_state[{tag}]", bool(state_ok) and z3.simplify(to_real(kw(c, "delta_t")) == z3.Real("time_step")) is not None and to_real(kw(c, "delta_t")) == z3.Real("time_step")
+                    state_ok = z3.And(same_array(p, pix, p.ex.pix_in), same_array(p, trapped, want_trapped)) if ok and want_trapped is not None else z3.BoolVal(False)
+                    u.oblige(p, f"model.{name}.kernel_gets_detector_state[{tag}]", z3.And(state_ok, to_real(kw(c, "delta_t")) == z3.Real("time_step"))
                              if ok and kw(c, "delta_t") is not None else z3.BoolVal(False), {}, PERSIST_REPLAY)
                     a_ok = ok and is_array_of(p, kw(c, "trap_time_constants"), p.ex.taus) is not False and is_array_of(p, kw(c, list2), p.ex.dens) is not False
                     goal = z3.And(is_array_of(p, kw(c, "trap_time_constants"), p.ex.taus), is_array_of(p, kw(c, list2), p.ex.dens)) if a_ok else z3.BoolVal(False)
@@ -442,8 +465,8 @@ def cdm_model(u: Unit):
             c = mine[0] if ok else ([], {})
             arr_in = kw(c, "array")
             goal = z3.BoolVal(False)
-            if ok and p.ex.is_arr(arr_in) and arr_in.addr == p.ex.pix_in.addr and all(kw(c, k) is not None for k in ("vg", "t", "beta", "fwc", "tr", "nt", "sigma")):
-                parts = [to_real(kw(c, k)) == z3.Real(v) for k, v in NAMES.items()] + [to_real(kw(c, "fwc")) == used]
+            if ok and p.ex.is_arr(arr_in) and all(kw(c, k) is not None for k in ("vg", "t", "beta", "fwc", "tr", "nt", "sigma")):
+                parts = [same_array(p, arr_in, p.ex.pix_in)] + [to_real(kw(c, k)) == z3.Real(v) for k, v in NAMES.items()] + [to_real(kw(c, "fwc")) == used]
                 for k in ("tr", "nt", "sigma"):
                     a = is_array_of(p, kw(c, k), p.ex.lists[k])
                     parts.append(a if a is not False else z3.BoolVal(False))
